@@ -166,6 +166,103 @@ theorem execM_rlock_ne_blocked (T : Table) : ∀ fuel held m ch, execM T .rlock 
   | zero => intro held m ch; simp [execM]
   | succ f ih => intro held m ch; simp only [execM]; exact execItems_rlock_ne_blocked _ ih held _ _
 
+/-! ## Lock discipline: the flat discipline (no re-acquisition while held) returns under every lock kind -/
+
+/-- method `m` (transitively, within call depth `fuel`) never takes the lock -/
+def lockFree (T : Table) : Nat → Nat → Bool
+  | 0, _ => false
+  | f + 1, m => (T.bodyOf m).all fun
+      | .region _ => false
+      | .call c => lockFree T f c
+
+/-- flat discipline: no region of `m` calls anything that (transitively) takes the lock, and the methods `m` calls
+    outside its regions are flat as well — the lock is never re-acquired while held -/
+def flatM (T : Table) : Nat → Nat → Bool
+  | 0, _ => false
+  | f + 1, m => (T.bodyOf m).all fun
+      | .region cs => cs.all (lockFree T f)
+      | .call c => flatM T f c
+
+theorem execCalls_returns (callM : Nat → List Bool → Res) (cs : List Nat)
+    (h : ∀ c ∈ cs, ∀ ch, ∃ ch', callM c ch = .ret ch') : ∀ ch, ∃ ch', execCalls callM cs ch = .ret ch' := by
+  induction cs with
+  | nil => intro ch; exact ⟨ch, rfl⟩
+  | cons c cs ih =>
+    intro ch
+    have ih' := ih (fun c' hc' => h c' (by simp [hc']))
+    simp only [execCalls]
+    split
+    · exact ih' _
+    · rename_i ch1 _
+      obtain ⟨ch2, h2⟩ := h c (by simp) ch1
+      rw [h2]; exact ih' _
+
+theorem lockFree_returns (T : Table) (k : LockKind) : ∀ f m, lockFree T f m = true →
+    ∀ held ch, ∃ ch', execM T k f held m ch = .ret ch' := by
+  intro f
+  induction f with
+  | zero => intro m h; simp [lockFree] at h
+  | succ f ih =>
+    intro m h held
+    simp only [lockFree, List.all_eq_true] at h
+    simp only [execM]
+    generalize T.bodyOf m = items at h
+    induction items with
+    | nil => intro ch; exact ⟨ch, rfl⟩
+    | cons it items ihl =>
+      intro ch
+      have ihl' := ihl (fun x hx => h x (by simp [hx]))
+      have hit := h it (by simp)
+      cases it with
+      | region cs => simp at hit
+      | call c =>
+        simp only at hit
+        simp only [execItems]
+        split
+        · exact ihl' _
+        · rename_i ch1 _
+          obtain ⟨ch2, h2⟩ := ih c hit held ch1
+          rw [h2]; exact ihl' _
+
+/-- A shape that never re-acquires the lock while holding it returns under EVERY lock kind (in particular under a
+    non-reentrant `Lock`), whichever branches are taken. -/
+theorem flat_returns (T : Table) (k : LockKind) : ∀ f m, flatM T f m = true →
+    ∀ ch, ∃ ch', execM T k f 0 m ch = .ret ch' := by
+  intro f
+  induction f with
+  | zero => intro m h; simp [flatM] at h
+  | succ f ih =>
+    intro m h
+    simp only [flatM, List.all_eq_true] at h
+    simp only [execM]
+    generalize T.bodyOf m = items at h
+    induction items with
+    | nil => intro ch; exact ⟨ch, rfl⟩
+    | cons it items ihl =>
+      intro ch
+      have ihl' := ihl (fun x hx => h x (by simp [hx]))
+      have hit := h it (by simp)
+      cases it with
+      | call c =>
+        simp only at hit
+        simp only [execItems]
+        split
+        · exact ihl' _
+        · rename_i ch1 _
+          obtain ⟨ch2, h2⟩ := ih c hit ch1
+          rw [h2]; exact ihl' _
+      | region cs =>
+        simp only [List.all_eq_true] at hit
+        simp only [execItems]
+        split
+        · exact ihl' _
+        · rename_i ch1 _
+          have hq : canAcq k 0 = true := by simp [canAcq]
+          rw [hq]; simp only [if_true]
+          obtain ⟨ch2, h2⟩ := execCalls_returns (execM T k f (0 + 1)) cs
+            (fun c hc => lockFree_returns T k f c (hit c hc) (0 + 1)) ch1
+          rw [h2]; exact ihl' _
+
 /-! ## Lifecycle automaton: specification vocabulary -/
 
 /-- the phase changes the property allows, together with the operations that may cause them -/
@@ -182,6 +279,24 @@ def follow : Phase → List Ev → Option Phase
   | p, [] => some p
   | p, .change a b :: r => if a = p then follow b r else none
   | p, .senescence _ :: r => follow p r
+
+/-- all callbacks of a history, in order -/
+def historyEvs (cfg : Cfg) (s : State) : List Op → List Ev
+  | [] => []
+  | op :: ops => (step cfg s op).evs ++ historyEvs cfg (step cfg s op).st ops
+
+theorem follow_append (p : Phase) (a b : List Ev) :
+    follow p (a ++ b) = (follow p a).bind fun q => follow q b := by
+  induction a generalizing p with
+  | nil => simp [follow]
+  | cons e a ih =>
+    cases e with
+    | change x y =>
+      simp only [List.cons_append, follow]
+      split
+      · exact ih y
+      · rfl
+    | senescence r => simp only [List.cons_append, follow]; exact ih p
 
 /-- remaining length within `[0, max_operations]` -/
 def WF (cfg : Cfg) (s : State) : Prop := 0 ≤ s.length ∧ s.length ≤ cfg.maxOps
